@@ -303,6 +303,30 @@ def run(ctx):
                 out['model_mismatch'].append({'input': {'text': t, 'filtered': filtered}, 'impl': {'toks': a.get('toks'), 'r': a.get('r'), 'msg': a.get('msg')},
                                               'model': diag.get(i, '')[:3000], 'classes': []})
             out['evaluations'] += len(rows)
+            # ---- the whole model pipeline (Lex + Parse + Eval) on the wild-layout TEXTS against the real compiler, byte for byte
+            trows, tmeta = [], []
+            k2 = 0
+            for p in progs:
+                a0 = ans[k2]; k2 += 1
+                cands = [(p['base'], a0)]
+                for (v, _st) in p['variants']:
+                    cands.append((v, ans[k2])); k2 += 1
+                for (txt, a) in cands[: (2 if quick else 4)]:
+                    if a.get('r') in ('ok', 'error'):
+                        term = 'text_case %s %s %s' % (SC.opts_term(p['opts']), coqrun.coq_str(txt), coqrun.coq_res(a))
+                        trows.append(('bool', '(fst (%s))' % term, '(snd (%s))' % term)); tmeta.append((txt, p['opts'], a))
+            bad, diag, errs = coqrun.evaluate(trows, ['Model.Ast', 'Model.Fmt', 'Model.Eval', 'Model.Pipeline'], wd, shard=30, tag='pipe')
+            out['harness_errors'] += errs
+            pabst = 0
+            for i in bad:
+                if diag.get(i, '').startswith('ABSTAIN'):
+                    pabst += 1
+                    continue
+                txt, o, a = tmeta[i]
+                out['model_mismatch'].append({'input': {'text': txt, 'opts': o, 'via': 'text pipeline (Lex + Parse + Eval)'}, 'impl': a, 'model': diag.get(i, '')[:3000], 'classes': []})
+            out['evaluations'] += len(trows)
+            dist['pipeline_cases'] = len(trows)
+            dist['pipeline_cases_model_abstains'] = pabst
             dist['token_cases'] = len(rows)
             dist['token_cases_model_abstains'] = abst
             dist['token_texts'] = {'generated': len(texts_for_tokens), 'corpus': len([t for t in ftexts if len(t) < (3000 if quick else 12000)])}
